@@ -16,6 +16,31 @@ impl Error {
 }
 pub type Result<T> = core::result::Result<T, Error>;
 
+/// a string literal token: the harness hands over its value
+#[derive(Clone, Copy, Debug)]
+pub struct LitStr { pub ptr: *const u8, pub len: usize }
+impl LitStr {
+    pub fn value(&self) -> String {
+        let b = unsafe { core::slice::from_raw_parts(self.ptr, self.len) };
+        // the harness only passes valid UTF-8
+        unsafe { core::str::from_utf8_unchecked(b) }.to_owned()
+    }
+}
+
+pub mod punctuated {
+    /// as far as `FmtAttribute` uses it: a sequence of values (the separators carry no information here)
+    #[derive(Debug)]
+    pub struct Punctuated<T, P> { pub items: Vec<T>, pub _p: core::marker::PhantomData<P> }
+    impl<T, P> Punctuated<T, P> {
+        pub fn new() -> Self { Punctuated { items: Vec::new(), _p: core::marker::PhantomData } }
+        pub fn push(&mut self, t: T) { self.items.push(t) }
+        pub fn len(&self) -> usize { self.items.len() }
+        pub fn is_empty(&self) -> bool { self.items.is_empty() }
+        pub fn first(&self) -> Option<&T> { self.items.first() }
+        pub fn iter(&self) -> core::slice::Iter<'_, T> { self.items.iter() }
+    }
+}
+
 pub mod lookahead { pub enum TokenMarker {} }
 pub fn Ident(marker: lookahead::TokenMarker) -> Ident { match marker {} }
 
@@ -28,7 +53,9 @@ pub mod buffer {
         pub fn span(self) -> Span { Span }
         pub fn ident(self) -> Option<(Ident, Cursor<'a>)> {
             let t = self.toks.get(self.pos)?;
-            if t.kind == 0 { Some((Ident { idx: self.pos as u32, keyword: t.keyword }, Cursor { toks: self.toks, pos: self.pos + 1 })) } else { None }
+            if t.kind == 0 {
+                Some((Ident { idx: self.pos as u32, keyword: t.keyword, text: &t.ch as *const u8, text_len: 1 }, Cursor { toks: self.toks, pos: self.pos + 1 }))
+            } else { None }
         }
         pub fn punct(self) -> Option<(Punct, Cursor<'a>)> {
             let t = self.toks.get(self.pos)?;
